@@ -244,6 +244,7 @@ def main():
     twin_bad = []
     replay_dir = os.path.join(EVDIR, "replays", prop)
     nrep = 0
+    blind_budget = [16]
     for r in results:
         v = r["verdict"]
         if r.get("twin"):
@@ -272,8 +273,34 @@ def main():
         elif v in ("error", "vacuous", "pre_unsat"):
             harness_errors.append((r["id"], v + ": " + (r.get("cx_message") or "")[:600]))
         else:
-            inconclusive.append({"id": r["id"], "why": (r.get("cx_message") or "")[:200],
-                                 "unsupported": r.get("unsupported", [])[:2]})
+            # neither the solver nor the concrete probe on the model decided this obligation (typically the changed code left the
+            # modelled subset of the environment).  Last resort: the replay - unmodified code, real files, independent oracle - on
+            # up to two argument tuples that satisfy the precondition.  A failure there is a violation like any other; a clean
+            # replay leaves the obligation inconclusive.
+            found = False
+            pargs = ((r.get("probe") or {}).get("args") or [])[:2]
+            if blind_budget[0] > 0 and pargs:
+                for k, a in enumerate(pargs):
+                    blind_budget[0] -= 1
+                    fail = {"args": a, "reason": "replay with concrete arguments after the symbolic run and the model probe were inconclusive",
+                            "found_by": "replay on real files"}
+                    path, rep = run_replay(prop, r["params"], fail, replay_dir, r["id"].replace("/", "_") + ".blind%d" % k)
+                    if rep.get("reproduced"):
+                        r["fail"] = fail
+                        r["replay"] = rep
+                        r["replay_path"] = path
+                        r["verdict"] = "refuted"
+                        key = rep.get("key", "")
+                        hit = [f for f in kf if f["key"] == key]
+                        if hit:
+                            knownhits.setdefault(key, (hit[0], path))
+                        else:
+                            violations.append((r, path, rep))
+                        found = True
+                        break
+            if not found:
+                inconclusive.append({"id": r["id"], "why": (r.get("cx_message") or "")[:200],
+                                     "unsupported": r.get("unsupported", [])[:2]})
     if not conf.get("ok"):
         harness_errors.append(("conformance", json.dumps(conf)[:1500]))
     for t in twin_bad:
